@@ -13,6 +13,7 @@ import (
 	"github.com/emirpasic/gods/v2/maps/treemap"
 	"github.com/emirpasic/gods/v2/sets/linkedhashset"
 	"github.com/emirpasic/gods/v2/sets/treeset"
+	"strconv"
 )
 
 // mapper family shared with AbsEnum.tla
@@ -90,7 +91,7 @@ func (c *enumCtx) base(x Inst, op string) Ev {
 	cfg := jsonCfg(x)
 	return Ev{"fam": "enum", "kind": x.Kind(), "cfg": cfg, "op": op, "rs": 1, "timeout": false, "obsbad": false,
 		"p": pred{Name: "true"}, "mp": mapper{Name: "id"}, "res": []any{}, "ret": []any{}, "hasres": false,
-		"res_after": []any{}, "recv_after": []any{}, "refres": []any{}, "hasref": false}
+		"res_after": []any{}, "recv_after": []any{}, "refres": []any{}, "hasref": false, "nest": enumNestMode}
 }
 
 // the receiver's iteration sequence as [index or key, value] pairs, read with a fresh iterator
@@ -174,6 +175,10 @@ func wrapRes(x Inst, c any) Inst {
 	return nil
 }
 
+// called at the start of every enumeration callback (re-entrancy modes, see runIdxEnum)
+var enumNested = func() {}
+var enumNestMode = 0
+
 func holdsX(p pred, a, b int) bool {
 	if p.Name == "sum3" {
 		return mod(a+b, p.M) == p.R
@@ -182,48 +187,110 @@ func holdsX(p pred, a, b int) bool {
 }
 
 func runIdxEnum[C any](c *enumCtx, get func(Inst) idxEnum[C]) {
-	fresh := func() (Inst, idxEnum[C]) { x := replay(c.u, c.path); return x, get(x) }
-	// Each
-	{
-		x, en := fresh()
-		e := c.base(x, "Each")
-		e["seq"] = iterSeq(x)
-		fp0 := fullFP(x)
-		var log [][]int
-		ci := invoke(e, func() { en.Each(func(i, v int) { log = append(log, []int{i, v}) }) })
-		finish(e, x, fp0, ci, log)
-	}
-	for _, p := range enumPreds {
-		p := p
-		for _, op := range []string{"Any", "All", "Find", "Select"} {
+	for nest := 0; nest <= 2; nest++ {
+		nest := nest
+		// re-entrancy: in modes 1 and 2 every callback itself enumerates / reads the SAME receiver (read-only calls from inside
+		// a read-only call: "for every element, is there an element such that ..."); the visited pairs and results must not change
+		fresh := func() (Inst, idxEnum[C]) {
+			x := replay(c.u, c.path)
+			en := get(x)
+			enumNested = func() {
+				switch nest {
+				case 1:
+					en.Any(func(int, int) bool { return false })
+				case 2:
+					en.Each(func(int, int) {})
+					en.Find(func(int, int) bool { return false })
+					en.All(func(int, int) bool { return true })
+					iterSeq(x)
+				}
+			}
+			return x, en
+		}
+		preds, mappers := enumPreds, idxMappers
+		if nest > 0 {
+			preds, mappers = enumPreds[:4], idxMappers[:2]
+		}
+		// Each
+		{
 			x, en := fresh()
-			e := c.base(x, op)
-			e["p"] = p
+			e := c.base(x, "Each")
 			e["seq"] = iterSeq(x)
 			fp0 := fullFP(x)
 			var log [][]int
-			f := func(i, v int) bool { log = append(log, []int{i, v}); return holdsX(p, i, v) }
+			ci := invoke(e, func() { en.Each(func(i, v int) { enumNested(); log = append(log, []int{i, v}) }) })
+			finish(e, x, fp0, ci, log)
+		}
+		for _, p := range preds {
+			p := p
+			for _, op := range []string{"Any", "All", "Find", "Select"} {
+				x, en := fresh()
+				e := c.base(x, op)
+				e["p"] = p
+				e["seq"] = iterSeq(x)
+				fp0 := fullFP(x)
+				var log [][]int
+				f := func(i, v int) bool { enumNested(); log = append(log, []int{i, v}); return holdsX(p, i, v) }
+				var res Inst
+				ci := invoke(e, func() {
+					switch op {
+					case "Any":
+						e["ret"] = []any{en.Any(f)}
+					case "All":
+						e["ret"] = []any{en.All(f)}
+					case "Find":
+						a, b := en.Find(f)
+						e["ret"] = []any{a, b}
+					case "Select":
+						res = wrapRes(x, any(en.Select(f)))
+					}
+				})
+				if res != nil && !ci.Panic {
+					e["hasres"] = true
+					e["res"] = contentOf(res)
+					fpr := fullFP(x)
+					independence(e, x, res)
+					_ = fpr
+					// independence mutates the receiver: report receiver content before that
+					e["panic"], e["pmsg"], e["out"] = ci.Panic, ci.PMsg, ci.Out
+					e["log"] = orEmpty(log)
+					e["recv"] = e["recv_after"]
+					e["pure"] = fp0 == fpr
+					emit(e)
+					continue
+				}
+				finish(e, x, fp0, ci, log)
+				distinct[x.Kind()+"|"+op+"|"+p.Name+"|"+strconv.Itoa(enumNestMode)] = struct{}{}
+			}
+		}
+		for _, m := range mappers {
+			m := m
+			x, en := fresh()
+			e := c.base(x, "Map")
+			e["mp"] = m
+			e["seq"] = iterSeq(x)
+			fp0 := fullFP(x)
+			var log [][]int
 			var res Inst
 			ci := invoke(e, func() {
-				switch op {
-				case "Any":
-					e["ret"] = []any{en.Any(f)}
-				case "All":
-					e["ret"] = []any{en.All(f)}
-				case "Find":
-					a, b := en.Find(f)
-					e["ret"] = []any{a, b}
-				case "Select":
-					res = wrapRes(x, any(en.Select(f)))
-				}
+				res = wrapRes(x, any(en.Map(func(i, v int) int { enumNested(); log = append(log, []int{i, v}); return m.idx(i, v) })))
 			})
 			if res != nil && !ci.Panic {
 				e["hasres"] = true
 				e["res"] = contentOf(res)
+				// reference: a fresh container of the same configuration, the mapped elements inserted in iteration order
+				ref := c.u.New()
+				for _, pr := range e["seq"].([][]int) {
+					switch t := ref.(type) {
+					case *seqInst:
+						t.l.Add(m.idx(pr[0], pr[1]))
+					case *setInst:
+						t.s.Add(m.idx(pr[0], pr[1]))
+					}
+				}
+				e["refres"], e["hasref"] = contentOf(ref), true
 				fpr := fullFP(x)
 				independence(e, x, res)
-				_ = fpr
-				// independence mutates the receiver: report receiver content before that
 				e["panic"], e["pmsg"], e["out"] = ci.Panic, ci.PMsg, ci.Out
 				e["log"] = orEmpty(log)
 				e["recv"] = e["recv_after"]
@@ -232,46 +299,9 @@ func runIdxEnum[C any](c *enumCtx, get func(Inst) idxEnum[C]) {
 				continue
 			}
 			finish(e, x, fp0, ci, log)
-			distinct[x.Kind()+"|"+op+"|"+p.Name] = struct{}{}
 		}
 	}
-	for _, m := range idxMappers {
-		m := m
-		x, en := fresh()
-		e := c.base(x, "Map")
-		e["mp"] = m
-		e["seq"] = iterSeq(x)
-		fp0 := fullFP(x)
-		var log [][]int
-		var res Inst
-		ci := invoke(e, func() {
-			res = wrapRes(x, any(en.Map(func(i, v int) int { log = append(log, []int{i, v}); return m.idx(i, v) })))
-		})
-		if res != nil && !ci.Panic {
-			e["hasres"] = true
-			e["res"] = contentOf(res)
-			// reference: a fresh container of the same configuration, the mapped elements inserted in iteration order
-			ref := c.u.New()
-			for _, pr := range e["seq"].([][]int) {
-				switch t := ref.(type) {
-				case *seqInst:
-					t.l.Add(m.idx(pr[0], pr[1]))
-				case *setInst:
-					t.s.Add(m.idx(pr[0], pr[1]))
-				}
-			}
-			e["refres"], e["hasref"] = contentOf(ref), true
-			fpr := fullFP(x)
-			independence(e, x, res)
-			e["panic"], e["pmsg"], e["out"] = ci.Panic, ci.PMsg, ci.Out
-			e["log"] = orEmpty(log)
-			e["recv"] = e["recv_after"]
-			e["pure"] = fp0 == fpr
-			emit(e)
-			continue
-		}
-		finish(e, x, fp0, ci, log)
-	}
+	enumNested, enumNestMode = func() {}, 0
 }
 
 func orEmpty(l [][]int) [][]int {
@@ -282,43 +312,103 @@ func orEmpty(l [][]int) [][]int {
 }
 
 func runKVEnum[C any](c *enumCtx, get func(Inst) kvEnum[C]) {
-	fresh := func() (Inst, kvEnum[C]) { x := replay(c.u, c.path); return x, get(x) }
-	{
-		x, en := fresh()
-		e := c.base(x, "Each")
-		e["seq"] = iterSeq(x)
-		fp0 := fullFP(x)
-		var log [][]int
-		ci := invoke(e, func() { en.Each(func(k int, v V) { log = append(log, []int{k, int(v)}) }) })
-		finish(e, x, fp0, ci, log)
-	}
-	for _, p := range enumPreds {
-		p := p
-		for _, op := range []string{"Any", "All", "Find", "Select"} {
+	for nest := 0; nest <= 2; nest++ {
+		nest := nest
+		fresh := func() (Inst, kvEnum[C]) {
+			x := replay(c.u, c.path)
+			en := get(x)
+			enumNested = func() {
+				switch nest {
+				case 1:
+					en.Any(func(int, V) bool { return false })
+				case 2:
+					en.Each(func(int, V) {})
+					en.Find(func(int, V) bool { return false })
+					en.All(func(int, V) bool { return true })
+					iterSeq(x)
+				}
+			}
+			return x, en
+		}
+		preds, mappers := enumPreds, kvMappers
+		if nest > 0 {
+			preds, mappers = enumPreds[:4], kvMappers[:2]
+		}
+		{
 			x, en := fresh()
-			e := c.base(x, op)
-			e["p"] = p
+			e := c.base(x, "Each")
 			e["seq"] = iterSeq(x)
 			fp0 := fullFP(x)
 			var log [][]int
-			f := func(k int, v V) bool { log = append(log, []int{k, int(v)}); return holdsX(p, k, int(v)) }
+			ci := invoke(e, func() { en.Each(func(k int, v V) { enumNested(); log = append(log, []int{k, int(v)}) }) })
+			finish(e, x, fp0, ci, log)
+		}
+		for _, p := range preds {
+			p := p
+			for _, op := range []string{"Any", "All", "Find", "Select"} {
+				x, en := fresh()
+				e := c.base(x, op)
+				e["p"] = p
+				e["seq"] = iterSeq(x)
+				fp0 := fullFP(x)
+				var log [][]int
+				f := func(k int, v V) bool { enumNested(); log = append(log, []int{k, int(v)}); return holdsX(p, k, int(v)) }
+				var res Inst
+				ci := invoke(e, func() {
+					switch op {
+					case "Any":
+						e["ret"] = []any{en.Any(f)}
+					case "All":
+						e["ret"] = []any{en.All(f)}
+					case "Find":
+						a, b := en.Find(f)
+						e["ret"] = []any{a, int(b)}
+					case "Select":
+						res = wrapRes(x, any(en.Select(f)))
+					}
+				})
+				if res != nil && !ci.Panic {
+					e["hasres"] = true
+					e["res"] = contentOf(res)
+					fpr := fullFP(x)
+					independence(e, x, res)
+					e["panic"], e["pmsg"], e["out"] = ci.Panic, ci.PMsg, ci.Out
+					e["log"] = orEmpty(log)
+					e["recv"] = e["recv_after"]
+					e["pure"] = fp0 == fpr
+					emit(e)
+					continue
+				}
+				finish(e, x, fp0, ci, log)
+				distinct[x.Kind()+"|"+op+"|"+p.Name+"|"+strconv.Itoa(enumNestMode)] = struct{}{}
+			}
+		}
+		for _, m := range mappers {
+			m := m
+			x, en := fresh()
+			e := c.base(x, "Map")
+			e["mp"] = m
+			e["seq"] = iterSeq(x)
+			fp0 := fullFP(x)
+			var log [][]int
 			var res Inst
 			ci := invoke(e, func() {
-				switch op {
-				case "Any":
-					e["ret"] = []any{en.Any(f)}
-				case "All":
-					e["ret"] = []any{en.All(f)}
-				case "Find":
-					a, b := en.Find(f)
-					e["ret"] = []any{a, int(b)}
-				case "Select":
-					res = wrapRes(x, any(en.Select(f)))
-				}
+				res = wrapRes(x, any(en.Map(func(k int, v V) (int, V) {
+					enumNested()
+					log = append(log, []int{k, int(v)})
+					a, b := m.kv(k, int(v))
+					return a, V(b)
+				})))
 			})
 			if res != nil && !ci.Panic {
 				e["hasres"] = true
 				e["res"] = contentOf(res)
+				ref := c.u.New().(*mapInst)
+				for _, pr := range e["seq"].([][]int) {
+					a, b := m.kv(pr[0], pr[1])
+					ref.c.Put(a, V(b))
+				}
+				e["refres"], e["hasref"] = contentOf(ref), true
 				fpr := fullFP(x)
 				independence(e, x, res)
 				e["panic"], e["pmsg"], e["out"] = ci.Panic, ci.PMsg, ci.Out
@@ -329,45 +419,9 @@ func runKVEnum[C any](c *enumCtx, get func(Inst) kvEnum[C]) {
 				continue
 			}
 			finish(e, x, fp0, ci, log)
-			distinct[x.Kind()+"|"+op+"|"+p.Name] = struct{}{}
 		}
 	}
-	for _, m := range kvMappers {
-		m := m
-		x, en := fresh()
-		e := c.base(x, "Map")
-		e["mp"] = m
-		e["seq"] = iterSeq(x)
-		fp0 := fullFP(x)
-		var log [][]int
-		var res Inst
-		ci := invoke(e, func() {
-			res = wrapRes(x, any(en.Map(func(k int, v V) (int, V) {
-				log = append(log, []int{k, int(v)})
-				a, b := m.kv(k, int(v))
-				return a, V(b)
-			})))
-		})
-		if res != nil && !ci.Panic {
-			e["hasres"] = true
-			e["res"] = contentOf(res)
-			ref := c.u.New().(*mapInst)
-			for _, pr := range e["seq"].([][]int) {
-				a, b := m.kv(pr[0], pr[1])
-				ref.c.Put(a, V(b))
-			}
-			e["refres"], e["hasref"] = contentOf(ref), true
-			fpr := fullFP(x)
-			independence(e, x, res)
-			e["panic"], e["pmsg"], e["out"] = ci.Panic, ci.PMsg, ci.Out
-			e["log"] = orEmpty(log)
-			e["recv"] = e["recv_after"]
-			e["pure"] = fp0 == fpr
-			emit(e)
-			continue
-		}
-		finish(e, x, fp0, ci, log)
-	}
+	enumNested, enumNestMode = func() {}, 0
 }
 
 func init() {
